@@ -20,6 +20,11 @@ import RV.Base.Proto
     refine c c c …                    -> the blank-node partition after the initial colour refinement of the
                                          model (`refinePartition`), canonical: classes sorted, `|`-separated
                                          (diagnostic tie of RV/C14/Canon.lean to `_TripleCanonicalizer._refine`)
+    refinestat c c c …                -> `cells=K discrete=B`: number of blank-node colours after the initial `_refine` and
+                                         whether they are all singletons (compared with the PUBLIC `stats` of
+                                         `to_canonical_graph`: initial_color_count - adjacent_nodes, individuations == 0)
+    canonrefine c c c … | c c c …     -> true | false | n/a   when both refinements are discrete: are the canonical triple
+                                         sets `canonRefine g`, `canonRefine h` (labels = colour hashes) equal; else n/a
     diff                              -> true true true    (theorem `diff_clauses`: the three clauses hold
                                                             for a sound `canon`; constant prediction)
   anything else -> bad-op
@@ -145,6 +150,24 @@ def step (s : Unit) : List String → Unit × String
       let classes := (refinePartition g).map (fun c => sortBy (fun a b => decide (a < b)) c)
       (s, " | ".intercalate ((sortBy lexLt classes).map showNats))
     | none => (s, "bad-op")
+  | "refinestat" :: rest =>
+    match triples? rest with
+    | some g =>
+      let cells := refinePartition g
+      (s, s!"cells={cells.length} discrete={showB (refineDiscrete sumHash termHash g)}")
+    | none => (s, "bad-op")
+  | "canonrefine" :: rest =>
+    match splitBar rest with
+    | [a, b] =>
+      match triples? a, triples? b with
+      | some g, some h =>
+        if refineDiscrete sumHash termHash g && refineDiscrete sumHash termHash h then
+          let cg := canonRefine sumHash termHash g
+          let ch := canonRefine sumHash termHash h
+          (s, showB (cg.all (fun t => decide (t ∈ ch)) && ch.all (fun t => decide (t ∈ cg))))
+        else (s, "n/a")
+      | _, _ => (s, "bad-op")
+    | _ => (s, "bad-op")
   | ["diff"] => (s, "true true true")
   | _ => (s, "bad-op")
 
